@@ -12,6 +12,9 @@ VC_WEAK_ABORT (_pixman_bits_image_dest_iter_init)
 VC_WEAK_ABORT (_pixman_linear_gradient_iter_init)
 VC_WEAK_ABORT (_pixman_radial_gradient_iter_init)
 VC_WEAK_ABORT (_pixman_conical_gradient_iter_init)
+/* create_bits.c (pixman-bits-image.c + pixman-image.c in one TU) */
+VC_WEAK_ABORT (_pixman_bits_image_setup_accessors)
+VC_WEAK_ABORT (pixman_transform_point_3d)
 #else
 typedef int vc_c04_replay_link_empty;
 #endif
